@@ -552,6 +552,9 @@ func init() {
 		if x > 1 {
 			return 1
 		}
+		if x < 0 {
+			return 0
+		}
 		return x
 	}), func(b *B) op { return ro.Clamp(0, 1) })
 	toF := func(x int) float64 { return float64(x)*1.5 - 1.75 } // -1.75, -0.25, 1.25, ...
@@ -616,14 +619,14 @@ func init() {
 	bEntry("Flatten", 0, m1(func(vs []int, end rec.Kind) ([]string, Term) {
 		var out []string
 		for _, v := range vs {
-			for k := 0; k < v; k++ {
+			for k := 0; k < flatLen(v); k++ {
 				out = append(out, rec.Render(v*10+k))
 			}
 		}
 		return out, fwd(end)
 	}), func(b *B) ro.Observable[int] {
 		return ro.Flatten[int]()(ro.Map(func(x int) []int {
-			s := make([]int, x)
+			s := make([]int, flatLen(x))
 			for k := range s {
 				s[k] = x*10 + k
 			}
@@ -957,4 +960,12 @@ func init() {
 				return []string{"chan"}, tC
 			})})
 	}
+}
+
+// flatLen: length of the slice the Flatten entry's projection builds for value x (any int).
+func flatLen(x int) int {
+	if x < 0 {
+		x = -x
+	}
+	return x % 4
 }
